@@ -6,18 +6,26 @@
 //   env_bytes      arbitrary bytes (no NUL) through the same readers; also the libFuzzer entry
 //   res_merge      Resource::Merge over generated attribute-map pairs and schema URLs
 //   res_detect     OTELResourceDetector::Detect over generated OTEL_RESOURCE_ATTRIBUTES/OTEL_SERVICE_NAME
-//   res_detect_bytes  the same over arbitrary list bytes (also a libFuzzer entry)
+//                  (pool and rich keys / values, up to ~50 members); the setting and up to two DERIVED
+//                  settings (members permuted, one odd member added at two positions) must be explained
+//                  by ONE reading of the list syntax
+//   res_detect_bytes  the same over arbitrary list bytes and service-name bytes (also a libFuzzer entry)
 //   res_create     Resource::Create precedence, in a forked child per case (the environment detection
 //                  is cached in a function-local static)
 //   sdk_disabled   OTEL_SDK_DISABLED through sdk::{trace,metrics,logs}::Provider::Set*Provider in a
 //                  forked child per case, end to end (span / log record / metric batch carry the
 //                  provider's resource)
+//   res_reference  clause 7 without a child process: provider construction path (every public constructor
+//                  / factory / context overload, default-argument resource included) x 1..3 processors
+//                  or readers (handed over or added later) x generated span / log / metric operations;
+//                  at every exporter every recordable carries exactly its provider's resource
 #include <signal.h>
 #include <sys/types.h>
 #include <sys/wait.h>
 #include <unistd.h>
 
 #include <algorithm>
+#include <bitset>
 #include <cerrno>
 #include <chrono>
 #include <cmath>
@@ -57,6 +65,29 @@
 #include "opentelemetry/sdk/trace/span_data.h"
 #include "opentelemetry/sdk/trace/tracer_provider.h"
 #include "opentelemetry/sdk/version/version.h"
+// res_reference: every public way to build a provider
+#include "opentelemetry/context/context.h"
+#include "opentelemetry/sdk/instrumentationscope/scope_configurator.h"
+#include "opentelemetry/sdk/logs/event_logger_provider.h"
+#include "opentelemetry/sdk/logs/event_logger_provider_factory.h"
+#include "opentelemetry/sdk/logs/logger_config.h"
+#include "opentelemetry/sdk/logs/logger_context.h"
+#include "opentelemetry/sdk/logs/logger_context_factory.h"
+#include "opentelemetry/sdk/logs/logger_provider_factory.h"
+#include "opentelemetry/sdk/logs/processor.h"
+#include "opentelemetry/sdk/metrics/export/metric_filter.h"
+#include "opentelemetry/sdk/metrics/meter_config.h"
+#include "opentelemetry/sdk/metrics/meter_context.h"
+#include "opentelemetry/sdk/metrics/meter_context_factory.h"
+#include "opentelemetry/sdk/metrics/meter_provider_factory.h"
+#include "opentelemetry/sdk/metrics/view/view_registry.h"
+#include "opentelemetry/sdk/trace/processor.h"
+#include "opentelemetry/sdk/trace/random_id_generator.h"
+#include "opentelemetry/sdk/trace/samplers/always_on.h"
+#include "opentelemetry/sdk/trace/tracer_config.h"
+#include "opentelemetry/sdk/trace/tracer_context.h"
+#include "opentelemetry/sdk/trace/tracer_context_factory.h"
+#include "opentelemetry/sdk/trace/tracer_provider_factory.h"
 #include "opentelemetry/trace/provider.h"
 #include "vh.h"
 
@@ -1580,67 +1611,150 @@ std::string pct_decode(const std::string &s)
 // Every reading of the list that the statement ("key=value lists ... the exact value"), the
 // specification (W3C-Baggage-like: OWS trimmed, values percent-decoded, the whole value discarded on
 // an error) and the implementation notes (split on ',' then the first '=') allow.
-std::set<RawMap> list_readings(const std::string &raw)
+// A *profile* fixes every open choice: bit 0 OWS trimmed, bit 1 the first of a repeated key wins, bit 2 a
+// malformed member discards the whole list, bit 3 values are percent-decoded, bit 4 an empty key is
+// malformed, bit 5 an empty member is malformed, bit 6 OTEL_SERVICE_NAME is trimmed (blank only = unset).
+constexpr unsigned kListProfiles = 64, kEnvProfiles = 128;
+
+std::vector<std::string> split_members(const std::string &raw)
 {
-  std::set<RawMap> out;
   std::vector<std::string> toks;
+  size_t i = 0;
+  while (true)
   {
-    size_t i = 0;
-    while (true)
+    size_t e = raw.find(',', i);
+    if (e == std::string::npos)
     {
-      size_t e = raw.find(',', i);
-      if (e == std::string::npos)
-      {
-        toks.push_back(raw.substr(i));
-        break;
-      }
-      toks.push_back(raw.substr(i, e - i));
-      i = e + 1;
+      toks.push_back(raw.substr(i));
+      break;
     }
+    toks.push_back(raw.substr(i, e - i));
+    i = e + 1;
   }
-  for (unsigned o = 0; o < 64; ++o)
+  return toks;
+}
+
+std::string join_members(const std::vector<std::string> &toks)
+{
+  std::string o;
+  for (size_t i = 0; i < toks.size(); ++i)
+    o += (i ? "," : "") + toks[i];
+  return o;
+}
+
+// the list as read under ONE list profile
+RawMap read_list(const std::vector<std::string> &toks, unsigned o)
+{
+  bool trim = o & 1, dup_first = o & 2, discard = o & 4, pct = o & 8, emptykey_bad = o & 16, emptytok_bad = o & 32;
+  RawMap m;
+  bool bad = false;
+  for (auto &tok : toks)
   {
-    bool trim = o & 1, dup_first = o & 2, discard = o & 4, pct = o & 8, emptykey_bad = o & 16,
-         emptytok_bad = o & 32;
-    RawMap m;
-    bool bad = false;
+    std::string t = trim ? trim_ows(tok) : tok;
+    if (t.empty())
+    {
+      bad = bad || emptytok_bad;
+      continue;
+    }
+    size_t pos = t.find('=');
+    if (pos == std::string::npos)
+    {
+      bad = true;
+      continue;
+    }
+    std::string k = t.substr(0, pos), v = t.substr(pos + 1);
+    if (trim)
+    {
+      k = trim_ows(k);
+      v = trim_ows(v);
+    }
+    if (k.empty() && emptykey_bad)
+    {
+      bad = true;
+      continue;
+    }
+    if (pct)
+      v = pct_decode(v);
+    if (dup_first)
+      m.emplace(k, v);
+    else
+      m[k] = v;
+  }
+  if (bad && discard)
+    m.clear();
+  return m;
+}
+
+// The readings of one setting under every profile, stored once per DISTINCT outcome: `idx[p]` is the index
+// into `uniq` of the reading under profile p.  A profile bit that cannot matter for this text (no blank, no
+// '%', no repeated key, no malformed / empty member, no empty key) is not enumerated - that is only a
+// saving of work: read_list() gives the same map with the bit set or clear (checked under VH_C18_SELFCHECK).
+struct Readings
+{
+  std::vector<RawMap> uniq;
+  std::vector<unsigned> idx;
+  std::set<RawMap> as_set() const { return std::set<RawMap>(uniq.begin(), uniq.end()); }
+};
+
+Readings list_readings_indexed(const std::string &raw)
+{
+  Readings r;
+  std::vector<std::string> toks = split_members(raw);
+  unsigned relevant = 0;
+  if (raw.find_first_of(" \t") != std::string::npos)
+    relevant |= 1;
+  if (raw.find('%') != std::string::npos)
+    relevant |= 8;
+  {
+    std::set<std::string> keys;
     for (auto &tok : toks)
     {
-      std::string t = trim ? trim_ows(tok) : tok;
+      std::string t = trim_ows(tok);
       if (t.empty())
       {
-        bad = bad || emptytok_bad;
+        relevant |= 32 | 4;
         continue;
       }
       size_t pos = t.find('=');
       if (pos == std::string::npos)
       {
-        bad = true;
+        relevant |= 4;
         continue;
       }
-      std::string k = t.substr(0, pos), v = t.substr(pos + 1);
-      if (trim)
-      {
-        k = trim_ows(k);
-        v = trim_ows(v);
-      }
-      if (k.empty() && emptykey_bad)
-      {
-        bad = true;
-        continue;
-      }
-      if (pct)
-        v = pct_decode(v);
-      if (dup_first)
-        m.emplace(k, v);
-      else
-        m[k] = v;
+      std::string k = trim_ows(t.substr(0, pos));
+      if (k.empty())
+        relevant |= 16 | 4;
+      if (!keys.insert(k).second)
+        relevant |= 2;
     }
-    if (bad && discard)
-      m.clear();
-    out.insert(m);
   }
-  return out;
+  r.idx.assign(kListProfiles, 0);
+  for (unsigned o = 0; o < kListProfiles; ++o)
+  {
+    unsigned canon = o & relevant;
+    if (canon != o)
+    {
+      r.idx[o] = r.idx[canon];  // canon < o: already there
+      continue;
+    }
+    r.idx[o] = static_cast<unsigned>(r.uniq.size());
+    r.uniq.push_back(read_list(toks, o));
+  }
+  static const bool selfcheck = getenv("VH_C18_SELFCHECK") != nullptr;
+  if (selfcheck)
+    for (unsigned o = 0; o < kListProfiles; ++o)
+      if (read_list(toks, o) != r.uniq[r.idx[o]])
+      {
+        fprintf(stderr, "C18 harness error: profile %u of '%s' is not the reading of its canonical profile\n", o,
+                vh::show(raw).c_str());
+        abort();
+      }
+  return r;
+}
+
+std::set<RawMap> list_readings(const std::string &raw)
+{
+  return list_readings_indexed(raw).as_set();
 }
 
 struct EnvSetting
@@ -1648,35 +1762,55 @@ struct EnvSetting
   Setting list, svc;
 };
 
+// the attribute map contributed by the environment under each of the 128 profiles
+Readings env_readings_indexed(const EnvSetting &e)
+{
+  Readings lists;
+  if (e.list.set && !e.list.text.empty())
+    lists = list_readings_indexed(e.list.text);
+  else
+  {
+    lists.uniq.assign(1, RawMap{});
+    lists.idx.assign(kListProfiles, 0);
+  }
+  const bool svc = e.svc.set && !e.svc.text.empty();  // an empty OTEL_SERVICE_NAME counts as unset
+  const std::string t = trim_ows(e.svc.text);
+  Readings r;
+  r.idx.assign(kEnvProfiles, 0);
+  if (!svc)
+  {
+    r.uniq = lists.uniq;
+    for (unsigned p = 0; p < kEnvProfiles; ++p)
+      r.idx[p] = lists.idx[p % kListProfiles];
+    return r;
+  }
+  const bool trim_matters = t != e.svc.text;
+  for (auto &m : lists.uniq)
+  {
+    RawMap as_is          = m;
+    as_is["service.name"] = e.svc.text;
+    r.uniq.push_back(std::move(as_is));
+    if (trim_matters)
+    {
+      RawMap trimmed = m;
+      if (!t.empty())
+        trimmed["service.name"] = t;
+      // else blank only: counts as unset under the trimming profile
+      r.uniq.push_back(std::move(trimmed));
+    }
+  }
+  for (unsigned p = 0; p < kEnvProfiles; ++p)
+  {
+    unsigned u = lists.idx[p % kListProfiles];
+    r.idx[p]   = trim_matters ? 2 * u + ((p & 64) ? 1 : 0) : u;
+  }
+  return r;
+}
+
 // all allowed attribute maps contributed by the environment
 std::set<RawMap> env_readings(const EnvSetting &e)
 {
-  std::set<RawMap> lists;
-  if (e.list.set && !e.list.text.empty())
-    lists = list_readings(e.list.text);
-  else
-    lists.insert(RawMap{});
-  if (!(e.svc.set && !e.svc.text.empty()))
-    return lists;  // an empty OTEL_SERVICE_NAME counts as unset
-  std::set<RawMap> out;
-  std::string t = trim_ows(e.svc.text);
-  for (auto m : lists)
-  {
-    RawMap as_is        = m;
-    as_is["service.name"] = e.svc.text;
-    out.insert(as_is);
-    if (t != e.svc.text)
-    {
-      if (t.empty())
-        out.insert(m);  // blank only: may count as unset
-      else
-      {
-        m["service.name"] = t;
-        out.insert(m);
-      }
-    }
-  }
-  return out;
+  return env_readings_indexed(e).as_set();
 }
 
 struct GenEnv
@@ -1688,6 +1822,58 @@ struct GenEnv
 
 const char *const kEnvKeys[] = {"k0", "k1", "k2", "e0", "e1", "service.name", "telemetry.sdk.name",
                                 "telemetry.sdk.language", "process.executable.name", "service.namespace"};
+
+// keys and values beyond the fixed pools: inner blanks, ';', '"', UTF-8 / high bytes, arbitrary bytes,
+// long filler (beyond 1 KiB).  ',' always ends a member and the first '=' ends the key - the member kinds
+// of gen_env control those two - so they are removed here; a NUL cannot be carried by setenv.
+std::string gen_rich_env_text(vh::Reader &rd, bool is_key, std::string *cls)
+{
+  std::string s;
+  switch (rd.weighted({3, 2, 2, 3, 4, 4}))
+  {
+    case 0:
+      s    = is_key ? "my key" : "two  words";
+      *cls = "inner-blank";
+      break;
+    case 1:
+      s    = is_key ? "k;p" : "a;b;c";
+      *cls = "semicolon";
+      break;
+    case 2:
+      s    = is_key ? "\"q\"" : "say \"hi\"";
+      *cls = "quote";
+      break;
+    case 3:
+    {
+      static const char *u[] = {"cl\xc3\xa9", "\xd0\xba\xd0\xbb\xd1\x8e\xd1\x87", "\xe2\x82\xac", "\xf0\x9f\x94\xa5x",
+                                "\xff\xfe"};
+      s    = u[rd.below(5)];
+      *cls = "utf8-or-high-bytes";
+      break;
+    }
+    case 4:
+      s    = random_text(rd);
+      *cls = "random-bytes";
+      break;
+    default:
+      s    = (is_key ? "long." : "") + std::string(200 + rd.below(3000), static_cast<char>('a' + rd.below(26)));
+      *cls = s.size() > 1024 ? "long>1KiB" : "long";
+      break;
+  }
+  std::string o;
+  for (char ch : s)
+    if (ch != ',' && ch != '\0' && !(is_key && ch == '='))
+      o.push_back(ch);
+  if (is_key && o.empty())
+    o = "rk";
+  return o;
+}
+
+bool has_edge_ows_or_percent(const std::string &s)
+{
+  return !s.empty() && (s.front() == ' ' || s.front() == '\t' || s.back() == ' ' || s.back() == '\t' ||
+                        s.find('%') != std::string::npos);
+}
 
 GenEnv gen_env(vh::Reader &rd)
 {
@@ -1711,7 +1897,11 @@ GenEnv gen_env(vh::Reader &rd)
   else
   {
     g.env.list.set = true;
-    unsigned n     = 1 + rd.below(6);
+    // 1..6 members as a rule; the top of the byte range gives 7..52 (bounded by the stream length)
+    unsigned nb    = rd.u8();
+    unsigned n     = nb < 240 ? 1 + nb % 6 : 7 + (nb - 240) * 3;
+    if (n > 6)
+      g.tags.push_back("list-more-than-6-members");
     unsigned budget = static_cast<unsigned>(rd.weighted({4, 4, 2}));
     if (budget == 2)
       budget = 100;
@@ -1730,8 +1920,27 @@ GenEnv gen_env(vh::Reader &rd)
         --budget;
         g.odd = true;
       }
-      std::string key = kEnvKeys[rd.below(10)];
-      std::string val = "v" + std::to_string(rd.below(10));
+      // pool key / "vN" as a rule; the top 14 % of each byte selects a rich key / value
+      unsigned kb     = rd.u8();
+      std::string key = kEnvKeys[kb % 10];
+      if (kb >= 220)
+      {
+        std::string cls;
+        key = gen_rich_env_text(rd, true, &cls);
+        g.tags.push_back("rich-key/" + cls);
+        if (has_edge_ows_or_percent(key))
+          g.odd = true;
+      }
+      unsigned vb     = rd.u8();
+      std::string val = "v" + std::to_string(vb % 10);
+      if (vb >= 220)
+      {
+        std::string cls;
+        val = gen_rich_env_text(rd, false, &cls);
+        g.tags.push_back("rich-value/" + cls);
+        if (has_edge_ows_or_percent(val))
+          g.odd = true;
+      }
       switch (kind)
       {
         case 0:
@@ -1800,9 +2009,19 @@ GenEnv gen_env(vh::Reader &rd)
     g.tags.push_back(g.odd ? "list-with-oddity" : "list-well-formed");
     g.svc_vs_list = list_has_svc;
   }
-  unsigned svc = static_cast<unsigned>(rd.weighted({50, 30, 5, 8, 7}));
+  unsigned svc = static_cast<unsigned>(rd.weighted({50, 30, 5, 8, 7, 6}));
   switch (svc)
   {
+    case 5:
+    {
+      std::string cls;
+      g.env.svc.set  = true;
+      g.env.svc.text = gen_rich_env_text(rd, false, &cls);
+      g.tags.push_back("svc-rich/" + cls);
+      if (g.env.svc.text.empty())
+        g.svc_vs_list = false;
+      break;
+    }
     case 0:
       g.tags.push_back("svc-unset");
       g.svc_vs_list = false;
@@ -1843,6 +2062,28 @@ std::string show_env(const EnvSetting &e)
          " OTEL_SERVICE_NAME=" + (e.svc.set ? "'" + vh::show(e.svc.text) + "'" : "<unset>");
 }
 
+// for failure messages: a run of more than 24 equal characters (the long filler) is written as a count
+std::string squeeze(const std::string &s)
+{
+  std::string o;
+  for (size_t i = 0; i < s.size();)
+  {
+    size_t j = i;
+    while (j < s.size() && s[j] == s[i])
+      ++j;
+    if (j - i > 24)
+      o += std::string(3, s[i]) + "...(" + std::to_string(j - i) + " x '" + s[i] + "')";
+    else
+      o.append(s, i, j - i);
+    i = j;
+  }
+  return o;
+}
+std::string msg_env(const EnvSetting &e)
+{
+  return squeeze(show_env(e));
+}
+
 std::string show_raw(const RawMap &m)
 {
   std::string o = "{";
@@ -1863,7 +2104,30 @@ void clear_env()
   unsetenv("OTEL_SDK_DISABLED");
 }
 
-void check_detect(vh::Case &c, const EnvSetting &e, int amb)
+using ProfileSet = std::bitset<kEnvProfiles>;
+
+// "trim=1 first-dup=* ..." : what the profiles of a set have in common
+std::string show_profiles(const ProfileSet &ps)
+{
+  static const char *names[] = {"trim-OWS", "first-of-repeated-key", "discard-all-on-malformed", "percent-decode",
+                                "empty-key-malformed", "empty-member-malformed", "trim-service-name"};
+  if (ps.none())
+    return "<none>";
+  std::string o;
+  for (unsigned b = 0; b < 7; ++b)
+  {
+    bool any0 = false, any1 = false;
+    for (unsigned p = 0; p < kEnvProfiles; ++p)
+      if (ps[p])
+        ((p >> b) & 1 ? any1 : any0) = true;
+    o += std::string(o.empty() ? "" : " ") + names[b] + "=" + (any0 && any1 ? "*" : any1 ? "yes" : "no");
+  }
+  return o;
+}
+
+// runs Detect() under the environment and returns the profiles that explain the result; a result that no
+// profile explains fails the case
+ProfileSet check_detect(vh::Case &c, const EnvSetting &e, int amb, RawMap *got_out = nullptr)
 {
   quiet_sdk_log();
   apply_env(e);
@@ -1880,38 +2144,146 @@ void check_detect(vh::Case &c, const EnvSetting &e, int amb)
                                                                                << show_owned(kv.second));
     got[kv.first] = nostd::get<std::string>(kv.second);
   }
-  std::set<RawMap> want = env_readings(e);
-  if (!want.count(got))
+  Readings rs = env_readings_indexed(e);
+  std::vector<bool> match;
+  for (auto &m : rs.uniq)
+    match.push_back(m == got);
+  ProfileSet explain;
+  for (unsigned p = 0; p < kEnvProfiles; ++p)
+    explain[p] = match[rs.idx[p]];
+  std::set<RawMap> want = rs.as_set();
+  if (explain.none())
   {
     std::string alts;
     size_t n = 0;
     for (auto &m : want)
       if (n++ < 4)
         alts += (alts.empty() ? "" : " | ") + show_raw(m);
-    VH_CHECK(c, false, "Detect() with " << show_env(e) << " gave " << show_raw(got) << "; allowed: " << alts);
+    VH_CHECK(c, false, "Detect() with " << msg_env(e) << " gave " << squeeze(show_raw(got)) << "; allowed: " << squeeze(alts));
   }
   c.tag("readings-" + std::to_string(want.size() > 4 ? 5 : want.size()) + (want.size() > 4 ? "+" : ""));
+  if (got_out)
+    *got_out = got;
+  return explain;
 }
+
+// One input leaves the reading open (specification vs implementation); SEVERAL inputs given to the same
+// detector must still be explained by ONE profile: a detector that trims blanks on one input (or member
+// position) and not on another follows no documented syntax at all.
+struct DetectRun
+{
+  EnvSetting env;
+  RawMap got;
+  ProfileSet explain;
+};
+
+void check_consistent(vh::Case &c, const std::vector<DetectRun> &runs)
+{
+  ProfileSet all;
+  all.set();
+  for (auto &r : runs)
+    all &= r.explain;
+  if (all.any())
+    return;
+  std::string o;
+  for (auto &r : runs)
+    o += " || " + msg_env(r.env) + " -> " + squeeze(show_raw(r.got)) + "  explained by: " + show_profiles(r.explain);
+  VH_CHECK(c, false, "no single reading of the key=value list syntax explains what Detect() returned for "
+                         << runs.size() << " related settings:" << o);
+}
+
+// the oddities that can be added to a list as one more member
+const char *const kOddMembers[] = {" ox=ov", "ox=ov ", "ox =ov", "ox= ov", "\tox=ov", "oddmember", "", "=ov", "ox=%41",
+                                   "ox=a%2Cb", "ox=1,ox=2", "ox=", "  "};
+constexpr unsigned kOddMemberCount = 13;
 }  // namespace
 
 VH_TARGET(res_detect, 2,
           "an environment is non-trivial when the list has a well-formed member together with an "
           "oddity (missing '=', empty token/key/value, blanks, '=' or '%' in a value, repeated key, "
-          "trailing comma), or OTEL_SERVICE_NAME competes with a service.name member; distinct = "
-          "distinct text of the two variables")
+          "trailing comma), or OTEL_SERVICE_NAME competes with a service.name member, or derived settings "
+          "(members permuted / one odd member added at two different positions) are read with it and must be "
+          "explained by the same reading; distinct = distinct text of the variables")
 {
-  GenEnv g     = gen_env(c.rd);
-  unsigned amb = static_cast<unsigned>(c.rd.weighted({6, 3, 1}));
+  vh::Reader &rd = c.rd;
+  GenEnv g     = gen_env(rd);
+  unsigned amb = static_cast<unsigned>(rd.weighted({6, 3, 1}));
+  // derived settings, drawn after everything else: 0 none, 1 permutation, 2 one odd member at two positions,
+  // 3 permutation + odd member, 4 an existing member repeated with another value at two positions
+  unsigned derive = static_cast<unsigned>(rd.weighted({30, 20, 25, 10, 15}));
+  std::vector<EnvSetting> derived;
+  if (derive != 0 && g.env.list.set)
+  {
+    std::vector<std::string> toks = split_members(g.env.list.text);
+    auto with_list = [&](const std::vector<std::string> &t) {
+      EnvSetting e = g.env;
+      e.list.text  = join_members(t);
+      return e;
+    };
+    if (derive == 1 || derive == 3)
+    {
+      std::vector<std::string> t = toks;
+      if (rd.coin())
+        std::reverse(t.begin(), t.end());
+      else
+        std::rotate(t.begin(), t.begin() + 1, t.end());
+      derived.push_back(with_list(t));
+      c.tag(toks.size() > 1 ? "derived-permutation" : "derived-permutation-of-1");
+    }
+    if (derive == 2 || derive == 3 || derive == 4)
+    {
+      std::string odd = kOddMembers[rd.below(kOddMemberCount)];
+      if (derive == 4)
+      {
+        // repeat the key of an existing member: which of the two wins is one global choice
+        const std::string &m = toks[rd.below(static_cast<uint32_t>(toks.size()))];
+        odd                  = m.substr(0, m.find('=')) + "=dup";
+      }
+      uint32_t slots = static_cast<uint32_t>(toks.size()) + 1;
+      uint32_t p1 = rd.below(slots), p2 = rd.below(slots);
+      if (p2 == p1)
+        p2 = (p1 + 1) % slots;
+      for (uint32_t pos : {p1, p2})
+      {
+        if (derive == 3 && pos == p2)
+          break;
+        std::vector<std::string> t = toks;
+        t.insert(t.begin() + pos, odd);
+        derived.push_back(with_list(t));
+      }
+      c.tag(derive == 4 ? "derived-repeated-key-at-2-positions"
+                        : derive == 3 ? "derived-odd-member" : "derived-odd-member-at-2-positions");
+    }
+  }
   c.note(show_env(g.env) + " errno=" + std::to_string(ambient_errno(amb)) + "\n");
+  for (auto &e : derived)
+    c.note("  derived: " + show_env(e) + "\n");
   for (auto &t : g.tags)
     c.tag(t);
-  c.nontrivial = (g.has_good && g.odd) || g.svc_vs_list;
-  check_detect(c, g.env, ambient_errno(amb));
+  c.nontrivial = (g.has_good && g.odd) || g.svc_vs_list || !derived.empty();
+  std::vector<DetectRun> runs;
+  runs.push_back(DetectRun{g.env, {}, {}});
+  for (auto &e : derived)
+    runs.push_back(DetectRun{e, {}, {}});
+  for (auto &r : runs)
+    r.explain = check_detect(c, r.env, ambient_errno(amb), &r.got);
+  check_consistent(c, runs);
+  if (runs.size() > 1)
+  {
+    // how much the extra settings narrowed the reading (evidence that the relation bites)
+    ProfileSet all;
+    all.set();
+    for (auto &r : runs)
+      all &= r.explain;
+    c.tag(all.count() < runs[0].explain.count() ? "derived-narrowed-the-reading" : "derived-same-reading");
+  }
 }
 
 VH_TARGET(res_detect_bytes, 1,
-          "arbitrary bytes as OTEL_RESOURCE_ATTRIBUTES; non-trivial when some reading of the list "
-          "yields at least one attribute (the text is near the grammar); distinct = distinct bytes")
+          "arbitrary bytes as OTEL_RESOURCE_ATTRIBUTES (and, for a quarter of the control bytes, arbitrary bytes "
+          "as OTEL_SERVICE_NAME); non-trivial when some reading of the list yields at least one attribute (the "
+          "text is near the grammar); the same members in reverse order are read as a second setting and one "
+          "reading must explain both; distinct = distinct bytes")
 {
   vh::Reader &rd = c.rd;
   unsigned ctl   = rd.u8();
@@ -1921,6 +2293,14 @@ VH_TARGET(res_detect_bytes, 1,
     e.svc.set  = true;
     e.svc.text = "svc";
   }
+  if (ctl & 2)
+  {
+    // the service name from the stream as well: up to 15 arbitrary bytes
+    e.svc.set  = true;
+    e.svc.text = rd.bytes((ctl >> 2) & 15);
+    e.svc.text = e.svc.text.substr(0, e.svc.text.find('\0'));
+    c.tag("svc-from-bytes");
+  }
   e.list.set  = true;
   e.list.text = rd.bytes(rd.remaining());
   e.list.text = e.list.text.substr(0, e.list.text.find('\0'));
@@ -1928,7 +2308,19 @@ VH_TARGET(res_detect_bytes, 1,
   if (!e.list.text.empty())
     for (auto &m : list_readings(e.list.text))
       c.nontrivial = c.nontrivial || !m.empty();
-  check_detect(c, e, 0);
+  std::vector<DetectRun> runs;
+  runs.push_back(DetectRun{e, {}, {}});
+  std::vector<std::string> toks = split_members(e.list.text);
+  if (toks.size() > 1)
+  {
+    std::reverse(toks.begin(), toks.end());
+    EnvSetting r = e;
+    r.list.text  = join_members(toks);
+    runs.push_back(DetectRun{r, {}, {}});
+  }
+  for (auto &r : runs)
+    r.explain = check_detect(c, r.env, 0, &r.got);
+  check_consistent(c, runs);
 }
 
 // ================================================================================================
@@ -1964,12 +2356,21 @@ void write_all(int fd, const std::string &s)
 // Shrinking re-runs the target thousands of times and every run here costs a fork: once a failing
 // case is known only this many further runs fork; later shrink candidates count as "not failing",
 // which merely ends the shrink search at the smallest failing case found so far.
+// The counters belong to ONE target: a failure (and its shrink search) in one fork-per-case target must
+// not turn the cases of another target that runs later in the same process into vacuous passes.
 unsigned g_fork_failures = 0, g_runs_after_failure = 0;
+std::string g_fork_target;
 constexpr unsigned kShrinkRuns = 400;
 
 template <class Body>
-void in_child(vh::Case &c, Body body)
+void in_child(vh::Case &c, const char *target, Body body)
 {
+  if (g_fork_target != target)
+  {
+    g_fork_target        = target;
+    g_fork_failures      = 0;
+    g_runs_after_failure = 0;
+  }
   if (g_fork_failures > 0 && ++g_runs_after_failure > kShrinkRuns)
   {
     c.tag("shrink-budget-skip");
@@ -2188,7 +2589,7 @@ VH_TARGET(res_create, 3,
       c.tag("service-name-synthesized");
     c.nontrivial = env_vs_default || caller_vs_env || caller_vs_default || synth;
   }
-  in_child(c, [&]() {
+  in_child(c, "res_create", [&]() {
     quiet_sdk_log();
     apply_env(g.env);
     std::set<RawMap> alive = readings;
@@ -2215,9 +2616,9 @@ VH_TARGET(res_create, 3,
       if (still.empty())
       {
         CreateModel cm = create_model(*alive.begin(), callers[j]);
-        VH_CHECK(c, false, "Create #" << j << " with " << show_env(g.env) << " and caller "
+        VH_CHECK(c, false, "Create #" << j << " with " << msg_env(g.env) << " and caller "
                                       << show_map(callers[j].model) << ": " << first_diff(got, cm.want)
-                                      << " (environment read as " << show_raw(*alive.begin()) << ", "
+                                      << " (environment read as " << squeeze(show_raw(*alive.begin())) << ", "
                                       << alive.size() << " reading(s) allowed); got " << show_map(got));
       }
       alive = still;
@@ -2350,7 +2751,7 @@ VH_TARGET(sdk_disabled, 2,
   c.nontrivial = dis.set && !dis.text.empty();
   std::set<RawMap> readings = env_readings(g.env);
 
-  in_child(c, [&]() {
+  in_child(c, "sdk_disabled", [&]() {
     quiet_sdk_log();
     apply_env(g.env);
     put_env("OTEL_SDK_DISABLED", dis);
@@ -2360,12 +2761,18 @@ VH_TARGET(sdk_disabled, 2,
       bool ok = false;
       for (auto &m : readings)
         ok = ok || create_matches(want, create_model(m, caller));
-      VH_CHECK(c, ok, "Create with " << show_env(g.env) << " and caller " << show_map(caller.model) << " gave "
+      VH_CHECK(c, ok, "Create with " << msg_env(g.env) << " and caller " << show_map(caller.model) << " gave "
                                      << show_map(want));
     }
     auto check_resource = [&](const resource::Resource &seen, const resource::Resource &of_provider,
                               const char *what) {
-      VH_CHECK(c, &seen == &of_provider, what << " does not reference its provider's resource object");
+      // "references its provider's resource" is decided on the CONTENT; whether the recordable points at
+      // the provider's own object or holds an equal copy is an implementation choice: a tag only
+      c.tag(&seen == &of_provider ? "ref-same-object" : "ref-equal-copy");
+      VH_CHECK(c, observe(of_provider.GetAttributes()) == want && of_provider.GetSchemaURL() == schema,
+               "the provider of " << what << " reports resource " << show_map(observe(of_provider.GetAttributes()))
+                                  << " schema '" << vh::show(of_provider.GetSchemaURL()) << "', it was built with "
+                                  << show_map(want) << " schema '" << vh::show(schema) << "'");
       VH_CHECK(c, observe(seen.GetAttributes()) == want && seen.GetSchemaURL() == schema,
                what << " carries resource " << show_map(observe(seen.GetAttributes())) << " schema '"
                     << vh::show(seen.GetSchemaURL()) << "', the provider was built with " << show_map(want)
@@ -2475,4 +2882,1136 @@ VH_TARGET(sdk_disabled, 2,
                                                                     << " metrics " << inst[2]);
     c.tag(inst[0] ? "observed-enabled" : "observed-disabled");
   });
+}
+
+// ================================================================================================
+// Clause 7 ("every span, log record and metric batch references its provider's resource") over GENERATED
+// provider shapes, without a child process.  No environment is involved: the resource is handed over
+// explicitly, or it is the default argument Resource::Create({}) of a process without OTEL_* settings.
+// This target MUST stay the last one of the file: it calls Resource::Create in the harness process, and
+// the fork-per-case targets above rely on a parent whose Create cache (a function-local static) is
+// still untouched when all targets run in one process.
+namespace
+{
+namespace scope_sdk = opentelemetry::sdk::instrumentationscope;
+
+// what an exporter found in one recordable, copied AT EXPORT TIME (the content is read while the
+// recordable is in the exporter's hands: a dangling reference is a sanitizer report)
+struct Seen
+{
+  std::string name;
+  SMap attrs;
+  std::string schema;
+  const resource::Resource *ptr;  // compared, never dereferenced later
+  size_t metrics = 0;             // metric batches: number of metrics inside
+};
+using SeenList = std::shared_ptr<std::vector<Seen>>;
+
+Seen snapshot(std::string name, const resource::Resource &r)
+{
+  return Seen{std::move(name), observe(r.GetAttributes()), r.GetSchemaURL(), &r, 0};
+}
+
+class SpanProbe : public trace_sdk::SpanExporter
+{
+public:
+  explicit SpanProbe(SeenList out) : out_(std::move(out)) {}
+  std::unique_ptr<trace_sdk::Recordable> MakeRecordable() noexcept override
+  {
+    return std::unique_ptr<trace_sdk::Recordable>(new trace_sdk::SpanData);
+  }
+  sdkc::ExportResult Export(const nostd::span<std::unique_ptr<trace_sdk::Recordable>> &spans) noexcept override
+  {
+    for (auto &s : spans)
+    {
+      auto *sd = static_cast<trace_sdk::SpanData *>(s.get());
+      out_->push_back(snapshot(std::string(sd->GetName().data(), sd->GetName().size()), sd->GetResource()));
+    }
+    return sdkc::ExportResult::kSuccess;
+  }
+  bool ForceFlush(std::chrono::microseconds) noexcept override { return true; }
+  bool Shutdown(std::chrono::microseconds) noexcept override { return true; }
+
+private:
+  SeenList out_;
+};
+
+class LogProbe : public logs_sdk::LogRecordExporter
+{
+public:
+  explicit LogProbe(SeenList out) : out_(std::move(out)) {}
+  std::unique_ptr<logs_sdk::Recordable> MakeRecordable() noexcept override
+  {
+    return std::unique_ptr<logs_sdk::Recordable>(new logs_sdk::ReadWriteLogRecord);
+  }
+  sdkc::ExportResult Export(const nostd::span<std::unique_ptr<logs_sdk::Recordable>> &recs) noexcept override
+  {
+    for (auto &r : recs)
+    {
+      auto *lr = static_cast<logs_sdk::ReadWriteLogRecord *>(r.get());
+      std::string body = "?";
+      const otc::AttributeValue &b = lr->GetBody();
+      if (nostd::holds_alternative<nostd::string_view>(b))
+        body = std::string(nostd::get<nostd::string_view>(b).data(), nostd::get<nostd::string_view>(b).size());
+      else if (nostd::holds_alternative<const char *>(b))
+        body = nostd::get<const char *>(b);
+      out_->push_back(snapshot(body, lr->GetResource()));
+    }
+    return sdkc::ExportResult::kSuccess;
+  }
+  bool ForceFlush(std::chrono::microseconds) noexcept override { return true; }
+  bool Shutdown(std::chrono::microseconds) noexcept override { return true; }
+
+private:
+  SeenList out_;
+};
+
+// A processor that keeps what it is given and exports it in ONE batch when it is flushed, shut down or
+// destroyed - a deterministic, thread-free stand-in for the batch processors: the recordables are read by
+// the exporter long after the span / log call returned, possibly during the provider's destruction.
+class HoldingSpanProcessor : public trace_sdk::SpanProcessor
+{
+public:
+  explicit HoldingSpanProcessor(std::unique_ptr<trace_sdk::SpanExporter> e) : exporter_(std::move(e)) {}
+  std::unique_ptr<trace_sdk::Recordable> MakeRecordable() noexcept override { return exporter_->MakeRecordable(); }
+  void OnStart(trace_sdk::Recordable &, const trace_api::SpanContext &) noexcept override {}
+  void OnEnd(std::unique_ptr<trace_sdk::Recordable> &&span) noexcept override { held_.push_back(std::move(span)); }
+  bool ForceFlush(std::chrono::microseconds) noexcept override { return Flush(); }
+  bool Shutdown(std::chrono::microseconds) noexcept override { return Flush(); }
+  ~HoldingSpanProcessor() override { Flush(); }
+
+private:
+  bool Flush()
+  {
+    if (!held_.empty())
+      exporter_->Export(nostd::span<std::unique_ptr<trace_sdk::Recordable>>(held_.data(), held_.size()));
+    held_.clear();
+    return true;
+  }
+  std::unique_ptr<trace_sdk::SpanExporter> exporter_;
+  std::vector<std::unique_ptr<trace_sdk::Recordable>> held_;
+};
+
+class HoldingLogProcessor : public logs_sdk::LogRecordProcessor
+{
+public:
+  explicit HoldingLogProcessor(std::unique_ptr<logs_sdk::LogRecordExporter> e) : exporter_(std::move(e)) {}
+  std::unique_ptr<logs_sdk::Recordable> MakeRecordable() noexcept override { return exporter_->MakeRecordable(); }
+  void OnEmit(std::unique_ptr<logs_sdk::Recordable> &&rec) noexcept override { held_.push_back(std::move(rec)); }
+  bool ForceFlush(std::chrono::microseconds) noexcept override { return Flush(); }
+  bool Shutdown(std::chrono::microseconds) noexcept override { return Flush(); }
+  ~HoldingLogProcessor() override { Flush(); }
+
+private:
+  bool Flush()
+  {
+    if (!held_.empty())
+      exporter_->Export(nostd::span<std::unique_ptr<logs_sdk::Recordable>>(held_.data(), held_.size()));
+    held_.clear();
+    return true;
+  }
+  std::unique_ptr<logs_sdk::LogRecordExporter> exporter_;
+  std::vector<std::unique_ptr<logs_sdk::Recordable>> held_;
+};
+
+std::unique_ptr<trace_sdk::SpanProcessor> new_span_processor(bool holding, const SeenList &sink)
+{
+  std::unique_ptr<trace_sdk::SpanExporter> e(new SpanProbe(sink));
+  if (holding)
+    return std::unique_ptr<trace_sdk::SpanProcessor>(new HoldingSpanProcessor(std::move(e)));
+  return std::unique_ptr<trace_sdk::SpanProcessor>(new trace_sdk::SimpleSpanProcessor(std::move(e)));
+}
+std::unique_ptr<logs_sdk::LogRecordProcessor> new_log_processor(bool holding, const SeenList &sink)
+{
+  std::unique_ptr<logs_sdk::LogRecordExporter> e(new LogProbe(sink));
+  if (holding)
+    return std::unique_ptr<logs_sdk::LogRecordProcessor>(new HoldingLogProcessor(std::move(e)));
+  return std::unique_ptr<logs_sdk::LogRecordProcessor>(new logs_sdk::SimpleLogRecordProcessor(std::move(e)));
+}
+
+std::unique_ptr<trace_sdk::Sampler> new_sampler()
+{
+  return std::unique_ptr<trace_sdk::Sampler>(new trace_sdk::AlwaysOnSampler);
+}
+std::unique_ptr<trace_sdk::IdGenerator> new_idgen()
+{
+  return std::unique_ptr<trace_sdk::IdGenerator>(new trace_sdk::RandomIdGenerator());
+}
+template <class Config>
+std::unique_ptr<scope_sdk::ScopeConfigurator<Config>> new_configurator()
+{
+  return std::make_unique<scope_sdk::ScopeConfigurator<Config>>(
+      typename scope_sdk::ScopeConfigurator<Config>::Builder(Config::Default()).Build());
+}
+
+// the first `arity` optional arguments of a constructor / factory overload, spelled out; arity 0 leaves the
+// resource to the documented default argument
+template <class Make>
+auto trace_arity(unsigned arity, const resource::Resource *res, Make make)
+{
+  switch (arity)
+  {
+    case 0:
+      return make();
+    case 1:
+      return make(*res);
+    case 2:
+      return make(*res, new_sampler());
+    case 3:
+      return make(*res, new_sampler(), new_idgen());
+    default:
+      return make(*res, new_sampler(), new_idgen(), new_configurator<trace_sdk::TracerConfig>());
+  }
+}
+template <class Make>
+auto logs_arity(unsigned arity, const resource::Resource *res, Make make)
+{
+  switch (arity)
+  {
+    case 0:
+      return make();
+    case 1:
+      return make(*res);
+    default:
+      return make(*res, new_configurator<logs_sdk::LoggerConfig>());
+  }
+}
+std::unique_ptr<metrics_sdk::ViewRegistry> new_views()
+{
+  return std::unique_ptr<metrics_sdk::ViewRegistry>(new metrics_sdk::ViewRegistry());
+}
+template <class Make>
+auto metrics_arity(unsigned arity, const resource::Resource *res, Make make)
+{
+  switch (arity)
+  {
+    case 0:
+      return make();
+    case 1:
+      return make(new_views());
+    case 2:
+      return make(new_views(), *res);
+    default:
+      return make(new_views(), *res, new_configurator<metrics_sdk::MeterConfig>());
+  }
+}
+
+// how a provider comes into being: every public constructor / factory overload
+struct Shape
+{
+  unsigned form   = 0;  // 0 provider ctor, 1 provider factory, 2 context ctor + provider ctor, 3 context
+                        // factory + provider factory, 4 context ctor + provider factory, 5 context factory
+                        // + provider ctor, 6 (logs) LoggerProvider()
+  bool single     = true;  // the one-processor overload (else the vector one); contexts take vectors only
+  unsigned arity  = 1;
+  unsigned total  = 1;  // processors / readers over the provider's life
+  unsigned initial = 1;  // ... of which handed to the constructor
+  std::vector<unsigned> add_at;  // for the others: added before operation #add_at
+  std::vector<bool> holding;     // per processor: HoldingProcessor (else Simple); per reader: has a filter
+  bool get_first = false;        // the first tracer / logger / meter is obtained BEFORE the additions at 0
+  unsigned end_mode = 0;         // 0 destroy, 1 ForceFlush + destroy, 2 Shutdown + destroy
+  bool scope_outlives = false;   // the tracer / logger handles are released after the provider
+  bool via_context() const { return form >= 2 && form <= 5; }
+  bool context_factory() const { return form == 3 || form == 5; }
+  bool provider_factory() const { return form == 1 || form == 3 || form == 4; }
+};
+
+const char *const kFormNames[] = {"ctor", "factory", "ctx-ctor+ctor", "ctx-factory+factory", "ctx-ctor+factory",
+                                  "ctx-factory+ctor", "default-ctor"};
+
+std::string show_shape(const Shape &s, unsigned max_arity)
+{
+  std::string o = std::string(kFormNames[s.form]) + (s.via_context() || s.form == 6 ? "" : s.single ? "(one)" : "(vector)") +
+                  " args=" + std::to_string(s.arity) + "/" + std::to_string(max_arity) +
+                  (s.arity == 0 || (max_arity == 3 && s.arity == 1) ? "(default resource)" : "") +
+                  " n=" + std::to_string(s.total) + " initial=" + std::to_string(s.initial) + " add_at=[";
+  for (size_t i = 0; i < s.add_at.size(); ++i)
+    o += (i ? "," : "") + std::to_string(s.add_at[i]);
+  o += "] kinds=[";
+  for (size_t i = 0; i < s.holding.size(); ++i)
+    o += (i ? "," : "") + std::string(s.holding[i] ? "H" : "S");
+  return o + "] get_first=" + std::to_string(s.get_first) + " end=" + std::to_string(s.end_mode) +
+         " scope_outlives=" + std::to_string(s.scope_outlives);
+}
+
+// max_arity: 4 traces, 2 logs, 3 metrics; `pipeline` = the signal has processors handed to constructors
+Shape gen_shape(vh::Reader &rd, unsigned max_arity, bool pipeline, bool has_default_ctor, unsigned nops)
+{
+  Shape s;
+  s.form = static_cast<unsigned>(has_default_ctor ? rd.weighted({30, 20, 10, 10, 8, 8, 14}) : rd.weighted({30, 20, 10, 10, 8, 8}));
+  s.single = !rd.coin();
+  // index 0 = "resource given, nothing else" (the simplest); index 1 = the default-argument resource
+  unsigned a = static_cast<unsigned>(rd.weighted({35, 25, 14, 13, 13}));
+  if (pipeline)
+    s.arity = a == 0 ? 1 : a == 1 ? 0 : a;  // 0 (P)  1 (P,res)  2.. further arguments
+  else
+    s.arity = a == 0 ? 2 : a == 1 ? static_cast<unsigned>(rd.below(2)) : a;  // metrics: 0 ()  1 (views)  2 (views,res)  3
+  if (s.arity > max_arity)
+    s.arity = max_arity;
+  if (s.form == 6)
+    s.arity = 0;
+  s.total = 1 + static_cast<unsigned>(rd.weighted({50, 30, 20}));
+  if (!pipeline || s.form == 6)
+    s.initial = 0;  // readers are always added later; LoggerProvider() starts without a processor
+  else if (s.single && !s.via_context())
+    s.initial = 1;
+  else
+    s.initial = s.total - static_cast<unsigned>(rd.below(s.total + 1));  // zero byte: all of them initial
+  for (unsigned j = s.initial; j < s.total; ++j)
+    s.add_at.push_back(static_cast<unsigned>(rd.below(nops + 1)));
+  for (unsigned j = 0; j < s.total; ++j)
+    s.holding.push_back(rd.chance(30));
+  s.get_first      = rd.coin();
+  s.end_mode       = static_cast<unsigned>(rd.weighted({50, 25, 25}));
+  s.scope_outlives = rd.chance(25);
+  return s;
+}
+
+// the resource a provider is built with
+struct ResArg
+{
+  unsigned kind = 0;  // 0 attributes + schema as given, 1 through Resource::Create
+  GenAttrs ga;
+  std::string schema;
+};
+
+struct Want
+{
+  SMap attrs;
+  std::string schema;
+  std::string how;
+};
+
+Want default_want()
+{
+  Want w;
+  w.attrs["telemetry.sdk.language"] = "str:" + canon_str("cpp");
+  w.attrs["telemetry.sdk.name"]     = "str:" + canon_str("opentelemetry");
+  w.attrs["telemetry.sdk.version"]  = "str:" + canon_str(OPENTELEMETRY_SDK_VERSION);
+  w.attrs["service.name"]           = "str:" + canon_str("unknown_service");
+  w.how = "the default argument Resource::Create({}) (no OTEL_* environment)";
+  return w;
+}
+
+// a fresh argument object per provider: it is destroyed as soon as the provider exists, so a provider (or a
+// recordable) that kept a reference to the ARGUMENT instead of its own resource is a sanitizer report
+std::unique_ptr<resource::Resource> make_res_arg(vh::Case &c, const ResArg &ra, Want *w)
+{
+  std::unique_ptr<resource::Resource> r;
+  if (ra.kind == 0)
+  {
+    r.reset(new resource::Resource(RawResource(build(ra.ga), ra.schema)));
+    VH_CHECK(c, observe(r->GetAttributes()) == ra.ga.model && r->GetSchemaURL() == ra.schema,
+             "a resource does not hold what it was built from: " << first_diff(observe(r->GetAttributes()), ra.ga.model));
+    w->how = "the given resource";
+  }
+  else
+  {
+    r.reset(new resource::Resource(resource::Resource::Create(build(ra.ga), ra.schema)));
+    CreateModel cm = create_model(RawMap{}, ra.ga);
+    VH_CHECK(c, create_matches(observe(r->GetAttributes()), cm) && r->GetSchemaURL() == ra.schema,
+             "Resource::Create(" << show_map(ra.ga.model) << ", '" << vh::show(ra.schema) << "') without OTEL_* environment gave "
+                                 << show_map(observe(r->GetAttributes())) << " schema '" << vh::show(r->GetSchemaURL())
+                                 << "': " << first_diff(observe(r->GetAttributes()), cm.want));
+    w->how = "the given Resource::Create(...) result";
+  }
+  w->attrs  = observe(r->GetAttributes());
+  w->schema = r->GetSchemaURL();
+  return r;
+}
+
+struct RefStats
+{
+  size_t checked = 0, same_object = 0, equal_copy = 0;
+};
+
+void check_seen(vh::Case &c, const Seen &s, const Want &w, const resource::Resource *of_provider, const std::string &what,
+                RefStats &st)
+{
+  VH_CHECK(c, s.attrs == w.attrs && s.schema == w.schema,
+           what << " carries resource " << show_map(s.attrs) << " schema '" << vh::show(s.schema)
+                << "', but its provider was built with " << w.how << " " << show_map(w.attrs) << " schema '"
+                << vh::show(w.schema) << "'" << (s.attrs == w.attrs ? "" : ": " + first_diff(s.attrs, w.attrs)));
+  ++st.checked;
+  ++(s.ptr == of_provider ? st.same_object : st.equal_copy);
+}
+
+void check_provider_resource(vh::Case &c, const resource::Resource &r, const Want &w, const char *what)
+{
+  VH_CHECK(c, observe(r.GetAttributes()) == w.attrs && r.GetSchemaURL() == w.schema,
+           what << "::GetResource() is " << show_map(observe(r.GetAttributes())) << " schema '" << vh::show(r.GetSchemaURL())
+                << "', but the provider was built with " << w.how << " " << show_map(w.attrs) << " schema '"
+                << vh::show(w.schema) << "': " << first_diff(observe(r.GetAttributes()), w.attrs));
+}
+
+size_t count_named(const std::vector<Seen> &v, const std::string &name)
+{
+  size_t n = 0;
+  for (auto &s : v)
+    n += s.name == name;
+  return n;
+}
+
+const char *const kRecNames[] = {"r0", "r1", "r2", "r3", "r4", "r5", "r6", "r7", "r8", "r9", "r10", "r11"};
+constexpr unsigned kMaxOps = 6;
+
+struct Slot
+{
+  SeenList sink;
+  unsigned born = 0;  // the step at which the processor / reader was attached
+};
+struct Emitted
+{
+  std::string name;
+  unsigned made = 0, done = 0;  // the steps of StartSpan / End, of CreateLogRecord / EmitLogRecord
+};
+
+// Non-vacuity: a processor attached before the recordable was made must receive it (AddProcessor documents
+// that a new processor "will get newly created" recordables but "may not receive" those in flight), so
+// that "every span / log record" is really decided at every exporter.  How OFTEN something arrives is not
+// this property's business; whatever arrives is checked.
+void check_delivery(vh::Case &c, const char *signal, const std::vector<Slot> &slots, const std::vector<Emitted> &items,
+                    const Want &w, const resource::Resource *of_provider, RefStats &st)
+{
+  for (size_t j = 0; j < slots.size(); ++j)
+  {
+    const std::vector<Seen> &got = *slots[j].sink;
+    for (auto &it : items)
+      if (slots[j].born < it.made)
+        VH_CHECK(c, count_named(got, it.name) >= 1,
+                 signal << " '" << it.name << "' was made after processor #" << j
+                        << " had been attached, but never reached that processor's exporter: its resource cannot be checked");
+    for (auto &s : got)
+      check_seen(c, s, w, of_provider, std::string("the ") + signal + " '" + s.name + "' at the exporter of processor #" + std::to_string(j), st);
+  }
+}
+
+// ---- traces ------------------------------------------------------------------------------------
+struct TraceOp
+{
+  unsigned kind = 0;  // 0 start + end, 1 start and keep open, 2 end the innermost open span, 3 second tracer, start + end
+  bool child    = false;
+};
+
+std::unique_ptr<trace_sdk::TracerProvider> build_tracer_provider(const Shape &sh, std::vector<std::unique_ptr<trace_sdk::SpanProcessor>> procs,
+                                                                 const resource::Resource *res)
+{
+  using TP  = trace_sdk::TracerProvider;
+  using Ctx = trace_sdk::TracerContext;
+  if (!sh.via_context())
+  {
+    if (sh.single)
+    {
+      std::unique_ptr<trace_sdk::SpanProcessor> p = std::move(procs[0]);
+      if (sh.provider_factory())
+        return trace_arity(sh.arity, res, [&](auto &&...a) {
+          return trace_sdk::TracerProviderFactory::Create(std::move(p), std::forward<decltype(a)>(a)...);
+        });
+      return trace_arity(sh.arity, res, [&](auto &&...a) {
+        return std::unique_ptr<TP>(new TP(std::move(p), std::forward<decltype(a)>(a)...));
+      });
+    }
+    if (sh.provider_factory())
+      return trace_arity(sh.arity, res, [&](auto &&...a) {
+        return trace_sdk::TracerProviderFactory::Create(std::move(procs), std::forward<decltype(a)>(a)...);
+      });
+    return trace_arity(sh.arity, res, [&](auto &&...a) {
+      return std::unique_ptr<TP>(new TP(std::move(procs), std::forward<decltype(a)>(a)...));
+    });
+  }
+  std::unique_ptr<Ctx> ctx = sh.context_factory()
+                                 ? trace_arity(sh.arity, res,
+                                               [&](auto &&...a) {
+                                                 return trace_sdk::TracerContextFactory::Create(std::move(procs),
+                                                                                                std::forward<decltype(a)>(a)...);
+                                               })
+                                 : trace_arity(sh.arity, res, [&](auto &&...a) {
+                                     return std::unique_ptr<Ctx>(new Ctx(std::move(procs), std::forward<decltype(a)>(a)...));
+                                   });
+  if (sh.provider_factory())
+    return trace_sdk::TracerProviderFactory::Create(std::move(ctx));
+  return std::unique_ptr<TP>(new TP(std::move(ctx)));
+}
+
+void run_traces(vh::Case &c, const Shape &sh, const std::vector<TraceOp> &ops, int rival_at, const ResArg &ra, RefStats &st)
+{
+  Want w = default_want();
+  std::unique_ptr<resource::Resource> arg;
+  if (sh.arity >= 1)
+    arg = make_res_arg(c, ra, &w);
+  std::vector<Slot> slots(sh.total);
+  for (auto &s : slots)
+    s.sink = std::make_shared<std::vector<Seen>>();
+  std::vector<std::unique_ptr<trace_sdk::SpanProcessor>> initial;
+  for (unsigned j = 0; j < sh.initial; ++j)
+    initial.push_back(new_span_processor(sh.holding[j], slots[j].sink));
+  unsigned now = 0;
+  std::unique_ptr<trace_sdk::TracerProvider> tp = build_tracer_provider(sh, std::move(initial), arg.get());
+  arg.reset();  // the provider owns a copy
+  const resource::Resource *of_provider = &tp->GetResource();
+  check_provider_resource(c, *of_provider, w, "TracerProvider");
+
+  // a second provider of the same signal with another resource, used in between: no cross-talk
+  Want rw;
+  rw.attrs["rival"] = "str:" + canon_str("yes");
+  rw.schema         = "rival-schema";
+  rw.how            = "the given resource";
+  Slot rslot;
+  rslot.sink = std::make_shared<std::vector<Seen>>();
+  std::unique_ptr<trace_sdk::TracerProvider> rival;
+  const resource::Resource *of_rival = nullptr;
+  if (rival_at >= 0)
+  {
+    resource::ResourceAttributes a;
+    a.SetAttribute("rival", "yes");
+    RawResource rr(a, "rival-schema");
+    rival.reset(new trace_sdk::TracerProvider(new_span_processor(false, rslot.sink), rr));
+    of_rival = &rival->GetResource();
+  }
+
+  std::vector<nostd::shared_ptr<trace_api::Tracer>> tracers;
+  std::vector<nostd::shared_ptr<trace_api::Span>> open;
+  std::vector<size_t> open_idx;
+  std::vector<Emitted> spans;
+  auto add_due = [&](unsigned pos) {
+    for (unsigned j = sh.initial; j < sh.total; ++j)
+      if (sh.add_at[j - sh.initial] == pos)
+      {
+        slots[j].born = ++now;
+        tp->AddProcessor(new_span_processor(sh.holding[j], slots[j].sink));
+      }
+  };
+  if (sh.get_first)
+    tracers.push_back(tp->GetTracer("c18.a", "1.0"));
+  add_due(0);
+  if (!sh.get_first)
+    tracers.push_back(tp->GetTracer("c18.a", "1.0"));
+  size_t cur = 0;
+  auto start = [&](bool child) {
+    trace_api::StartSpanOptions opts;
+    if (child && !open.empty())
+      opts.parent = open.back()->GetContext();
+    Emitted e;
+    e.name = kRecNames[spans.size()];
+    e.made = ++now;
+    auto sp = tracers[cur]->StartSpan(e.name, opts);
+    spans.push_back(e);
+    return sp;
+  };
+  for (unsigned i = 0; i < ops.size(); ++i)
+  {
+    if (i)
+      add_due(i);
+    if (rival_at == static_cast<int>(i))
+      rival->GetTracer("c18.a", "1.0")->StartSpan("rival-span")->End();
+    const TraceOp &op = ops[i];
+    if (op.kind == 3 && tracers.size() < 2)
+    {
+      tracers.push_back(tp->GetTracer("c18.b"));
+      cur = 1;
+    }
+    if (op.kind == 1)
+    {
+      open.push_back(start(op.child));
+      open_idx.push_back(spans.size() - 1);
+    }
+    else if (op.kind == 2 && !open.empty())
+    {
+      open.back()->End();
+      spans[open_idx.back()].done = ++now;
+      open.pop_back();
+      open_idx.pop_back();
+    }
+    else
+    {
+      auto sp = start(op.child);
+      sp->End();
+      spans.back().done = ++now;
+    }
+  }
+  add_due(static_cast<unsigned>(ops.size()));
+  while (!open.empty())
+  {
+    open.back()->End();
+    spans[open_idx.back()].done = ++now;
+    open.pop_back();
+    open_idx.pop_back();
+  }
+  if (rival_at >= static_cast<int>(ops.size()))
+    rival->GetTracer("c18.a", "1.0")->StartSpan("rival-span")->End();
+  check_provider_resource(c, tp->GetResource(), w, "TracerProvider");
+  if (sh.end_mode == 1)
+    tp->ForceFlush();
+  else if (sh.end_mode == 2)
+    tp->Shutdown();
+  if (!sh.scope_outlives)
+    tracers.clear();
+  tp.reset();
+  tracers.clear();
+  rival.reset();
+  check_delivery(c, "span", slots, spans, w, of_provider, st);
+  if (rival_at >= 0)
+  {
+    VH_CHECK(c, rslot.sink->size() == 1, "the second provider exported " << rslot.sink->size() << " span(s), expected its 1");
+    check_seen(c, (*rslot.sink)[0], rw, of_rival, "the span of the SECOND tracer provider (another resource)", st);
+  }
+}
+
+// ---- logs --------------------------------------------------------------------------------------
+struct LogOp
+{
+  // 0 EmitLogRecord(severity, body)   1 CreateLogRecord, kept   2 EmitLogRecord(record) of the oldest kept
+  // record (none kept: create + emit)   3 Log(severity, message)   4 second logger, EmitLogRecord(severity, body)
+  // 5 EventLogger::EmitEvent   6 EmitLogRecord(record, severity) of the oldest kept record
+  unsigned kind = 0;
+};
+
+std::unique_ptr<logs_sdk::LoggerProvider> build_logger_provider(const Shape &sh, std::vector<std::unique_ptr<logs_sdk::LogRecordProcessor>> procs,
+                                                                const resource::Resource *res)
+{
+  using LP  = logs_sdk::LoggerProvider;
+  using Ctx = logs_sdk::LoggerContext;
+  if (sh.form == 6)
+    return std::unique_ptr<LP>(new LP());
+  if (!sh.via_context())
+  {
+    if (sh.single)
+    {
+      std::unique_ptr<logs_sdk::LogRecordProcessor> p = std::move(procs[0]);
+      if (sh.provider_factory())
+        return logs_arity(sh.arity, res, [&](auto &&...a) {
+          return logs_sdk::LoggerProviderFactory::Create(std::move(p), std::forward<decltype(a)>(a)...);
+        });
+      return logs_arity(sh.arity, res, [&](auto &&...a) {
+        return std::unique_ptr<LP>(new LP(std::move(p), std::forward<decltype(a)>(a)...));
+      });
+    }
+    if (sh.provider_factory())
+      return logs_arity(sh.arity, res, [&](auto &&...a) {
+        return logs_sdk::LoggerProviderFactory::Create(std::move(procs), std::forward<decltype(a)>(a)...);
+      });
+    return logs_arity(sh.arity, res, [&](auto &&...a) {
+      return std::unique_ptr<LP>(new LP(std::move(procs), std::forward<decltype(a)>(a)...));
+    });
+  }
+  std::unique_ptr<Ctx> ctx = sh.context_factory()
+                                 ? logs_arity(sh.arity, res,
+                                              [&](auto &&...a) {
+                                                return logs_sdk::LoggerContextFactory::Create(std::move(procs),
+                                                                                              std::forward<decltype(a)>(a)...);
+                                              })
+                                 : logs_arity(sh.arity, res, [&](auto &&...a) {
+                                     return std::unique_ptr<Ctx>(new Ctx(std::move(procs), std::forward<decltype(a)>(a)...));
+                                   });
+  if (sh.provider_factory())
+    return logs_sdk::LoggerProviderFactory::Create(std::move(ctx));
+  return std::unique_ptr<LP>(new LP(std::move(ctx)));
+}
+
+void run_logs(vh::Case &c, const Shape &sh, const std::vector<LogOp> &ops, int rival_at, const ResArg &ra, RefStats &st)
+{
+  Want w = default_want();
+  std::unique_ptr<resource::Resource> arg;
+  if (sh.arity >= 1)
+    arg = make_res_arg(c, ra, &w);
+  std::vector<Slot> slots(sh.total);
+  for (auto &s : slots)
+    s.sink = std::make_shared<std::vector<Seen>>();
+  std::vector<std::unique_ptr<logs_sdk::LogRecordProcessor>> initial;
+  for (unsigned j = 0; j < sh.initial; ++j)
+    initial.push_back(new_log_processor(sh.holding[j], slots[j].sink));
+  unsigned now = 0;
+  std::unique_ptr<logs_sdk::LoggerProvider> lp = build_logger_provider(sh, std::move(initial), arg.get());
+  arg.reset();
+  const resource::Resource *of_provider = &lp->GetResource();
+  check_provider_resource(c, *of_provider, w, "LoggerProvider");
+
+  Want rw;
+  rw.attrs["rival"] = "str:" + canon_str("yes");
+  rw.schema         = "rival-schema";
+  rw.how            = "the given resource";
+  Slot rslot;
+  rslot.sink = std::make_shared<std::vector<Seen>>();
+  std::unique_ptr<logs_sdk::LoggerProvider> rival;
+  const resource::Resource *of_rival = nullptr;
+  if (rival_at >= 0)
+  {
+    resource::ResourceAttributes a;
+    a.SetAttribute("rival", "yes");
+    RawResource rr(a, "rival-schema");
+    rival.reset(new logs_sdk::LoggerProvider(new_log_processor(false, rslot.sink), rr));
+    of_rival = &rival->GetResource();
+  }
+
+  std::vector<nostd::shared_ptr<logs_api::Logger>> loggers;
+  std::vector<Emitted> recs;
+  std::vector<std::pair<nostd::unique_ptr<logs_api::LogRecord>, size_t>> kept;
+  auto add_due = [&](unsigned pos) {
+    for (unsigned j = sh.initial; j < sh.total; ++j)
+      if (sh.add_at[j - sh.initial] == pos)
+      {
+        slots[j].born = ++now;
+        lp->AddProcessor(new_log_processor(sh.holding[j], slots[j].sink));
+      }
+  };
+  if (sh.get_first)
+    loggers.push_back(lp->GetLogger("c18.a", "c18lib", "1.0"));
+  add_due(0);
+  if (!sh.get_first)
+    loggers.push_back(lp->GetLogger("c18.a", "c18lib", "1.0"));
+  size_t cur = 0;
+  auto fresh = [&]() {
+    Emitted e;
+    e.name = kRecNames[recs.size()];
+    e.made = e.done = ++now;
+    recs.push_back(e);
+    return kRecNames[recs.size() - 1];
+  };
+  auto emit_kept = [&](bool with_arguments) {
+    auto rec   = std::move(kept.front().first);
+    size_t idx = kept.front().second;
+    kept.erase(kept.begin());
+    recs[idx].done = ++now;
+    if (with_arguments)
+      loggers[cur]->EmitLogRecord(std::move(rec), logs_api::Severity::kWarn);
+    else
+      loggers[cur]->EmitLogRecord(std::move(rec));
+  };
+  for (unsigned i = 0; i < ops.size(); ++i)
+  {
+    if (i)
+      add_due(i);
+    if (rival_at == static_cast<int>(i))
+      rival->GetLogger("c18.a", "c18lib", "1.0")->EmitLogRecord(logs_api::Severity::kInfo, "rival-record");
+    const LogOp &op = ops[i];
+    if (op.kind == 4 && loggers.size() < 2)
+    {
+      loggers.push_back(lp->GetLogger("c18.b", "c18lib"));
+      cur = 1;
+    }
+    switch (op.kind)
+    {
+      case 1:
+      {
+        const char *name = fresh();
+        auto rec         = loggers[cur]->CreateLogRecord();
+        VH_CHECK(c, rec != nullptr, "CreateLogRecord() of an enabled logger returned null");
+        rec->SetBody(name);
+        kept.emplace_back(std::move(rec), recs.size() - 1);
+        break;
+      }
+      case 2:
+      case 6:
+        if (kept.empty())
+        {
+          const char *name = fresh();
+          auto rec         = loggers[cur]->CreateLogRecord();
+          VH_CHECK(c, rec != nullptr, "CreateLogRecord() of an enabled logger returned null");
+          rec->SetBody(name);
+          kept.emplace_back(std::move(rec), recs.size() - 1);
+        }
+        emit_kept(op.kind == 6);
+        break;
+      case 3:
+        loggers[cur]->Log(logs_api::Severity::kError, nostd::string_view(fresh()));
+        break;
+      case 5:
+      {
+        auto elp = logs_sdk::EventLoggerProviderFactory::Create();
+        auto el  = elp->CreateEventLogger(loggers[cur], "c18.domain");
+        el->EmitEvent("c18.event", logs_api::Severity::kInfo, nostd::string_view(fresh()));
+        break;
+      }
+      default:
+        loggers[cur]->EmitLogRecord(logs_api::Severity::kInfo, nostd::string_view(fresh()));
+        break;
+    }
+  }
+  add_due(static_cast<unsigned>(ops.size()));
+  while (!kept.empty())
+    emit_kept(false);
+  if (rival_at >= static_cast<int>(ops.size()))
+    rival->GetLogger("c18.a", "c18lib", "1.0")->EmitLogRecord(logs_api::Severity::kInfo, "rival-record");
+  check_provider_resource(c, lp->GetResource(), w, "LoggerProvider");
+  if (sh.end_mode == 1)
+    lp->ForceFlush();
+  else if (sh.end_mode == 2)
+    lp->Shutdown();
+  if (!sh.scope_outlives)
+    loggers.clear();
+  lp.reset();
+  loggers.clear();
+  rival.reset();
+  check_delivery(c, "log record", slots, recs, w, of_provider, st);
+  if (rival_at >= 0)
+  {
+    VH_CHECK(c, rslot.sink->size() == 1, "the second provider exported " << rslot.sink->size() << " log record(s), expected its 1");
+    check_seen(c, (*rslot.sink)[0], rw, of_rival, "the log record of the SECOND logger provider (another resource)", st);
+  }
+}
+
+// ---- metrics -----------------------------------------------------------------------------------
+struct MetricOp
+{
+  unsigned kind = 0;  // 0 counter.Add, 1 histogram.Record, 2 Collect on a reader, 3 second meter, counter.Add
+  unsigned pick = 0;
+};
+
+std::unique_ptr<metrics_sdk::MeterProvider> build_meter_provider(const Shape &sh, const resource::Resource *res)
+{
+  using MP  = metrics_sdk::MeterProvider;
+  using Ctx = metrics_sdk::MeterContext;
+  if (!sh.via_context())
+  {
+    if (sh.provider_factory())
+      return metrics_arity(sh.arity, res, [&](auto &&...a) {
+        return metrics_sdk::MeterProviderFactory::Create(std::forward<decltype(a)>(a)...);
+      });
+    return metrics_arity(sh.arity, res, [&](auto &&...a) { return std::unique_ptr<MP>(new MP(std::forward<decltype(a)>(a)...)); });
+  }
+  std::unique_ptr<Ctx> ctx = sh.context_factory()
+                                 ? metrics_arity(sh.arity, res,
+                                                 [&](auto &&...a) {
+                                                   return metrics_sdk::MeterContextFactory::Create(std::forward<decltype(a)>(a)...);
+                                                 })
+                                 : metrics_arity(sh.arity, res, [&](auto &&...a) {
+                                     return std::unique_ptr<Ctx>(new Ctx(std::forward<decltype(a)>(a)...));
+                                   });
+  if (sh.provider_factory())
+    return metrics_sdk::MeterProviderFactory::Create(std::move(ctx));
+  return std::unique_ptr<MP>(new MP(std::move(ctx)));
+}
+
+void run_metrics(vh::Case &c, const Shape &sh, const std::vector<MetricOp> &ops, unsigned final_collects, const ResArg &ra,
+                 RefStats &st)
+{
+  Want w = default_want();
+  std::unique_ptr<resource::Resource> arg;
+  if (sh.arity >= 2)
+    arg = make_res_arg(c, ra, &w);
+  std::unique_ptr<metrics_sdk::MeterProvider> mp = build_meter_provider(sh, arg.get());
+  arg.reset();
+  const resource::Resource *of_provider = &mp->GetResource();
+  check_provider_resource(c, *of_provider, w, "MeterProvider");
+
+  struct ReaderSlot
+  {
+    std::shared_ptr<PullReader> reader;
+    unsigned born = 0;
+    bool attached = false;
+    std::vector<Seen> batches;
+  };
+  std::vector<ReaderSlot> readers(sh.total);
+  unsigned now = 0;
+  struct Instrument
+  {
+    unsigned made      = 0;
+    unsigned first_use = 0;
+  };
+  std::vector<Instrument> instruments;
+  auto add_due = [&](unsigned pos) {
+    for (unsigned j = 0; j < sh.total; ++j)
+      if (sh.add_at[j] == pos)
+      {
+        readers[j].reader.reset(new PullReader);
+        readers[j].born     = ++now;
+        readers[j].attached = true;
+        std::unique_ptr<metrics_sdk::MetricFilter> filter;
+        if (sh.holding[j])
+          // a filter that lets everything through, the second half by the per-attribute-set path
+          filter = metrics_sdk::MetricFilter::Create(
+              [](const scope_sdk::InstrumentationScope &, nostd::string_view name, const metrics_sdk::InstrumentType &,
+                 nostd::string_view) {
+                return name == "c18.count" ? metrics_sdk::MetricFilter::MetricFilterResult::kAcceptPartial
+                                           : metrics_sdk::MetricFilter::MetricFilterResult::kAccept;
+              },
+              [](const scope_sdk::InstrumentationScope &, nostd::string_view, const metrics_sdk::InstrumentType &,
+                 nostd::string_view, const metrics_sdk::PointAttributes &) {
+                return metrics_sdk::MetricFilter::AttributesFilterResult::kAccept;
+              });
+        mp->AddMetricReader(readers[j].reader, std::move(filter));
+      }
+  };
+  auto collect = [&](unsigned j) {
+    ReaderSlot &r = readers[j];
+    ++now;
+    // the batch must hold data when an instrument made after the reader was attached has a measurement
+    bool expect_data = false;
+    for (auto &in : instruments)
+      expect_data = expect_data || (in.made > r.born && in.first_use != 0);
+    size_t calls = 0, unreferenced = 0;
+    std::string name = "batch #" + std::to_string(r.batches.size()) + " of reader #" + std::to_string(j);
+    // Collect() is noexcept: nothing may be thrown from inside the callback
+    r.reader->Collect([&](metrics_sdk::ResourceMetrics &rm) {
+      ++calls;
+      size_t metrics = 0;
+      for (auto &sm : rm.scope_metric_data_)
+        metrics += sm.metric_data_.size();
+      if (rm.resource_ == nullptr)
+      {
+        unreferenced += metrics;
+        if (metrics == 0)
+          c.tag("metrics/empty-batch-without-resource");  // nothing in it that could reference a resource
+        return true;
+      }
+      Seen s    = snapshot(name, *rm.resource_);
+      s.metrics = metrics;
+      r.batches.push_back(std::move(s));
+      return true;
+    });
+    VH_CHECK(c, unreferenced == 0, "the metric " << name << " holds " << unreferenced << " metric(s) but references no resource");
+    VH_CHECK(c, calls == 1, "Collect() of reader #" << j << " invoked the callback " << calls << " times");
+    if (expect_data)
+      VH_CHECK(c, !r.batches.empty() && r.batches.back().metrics >= 1,
+               "reader #" << j << " was attached before an instrument with measurements was created, but its batch is empty");
+  };
+
+  std::vector<nostd::shared_ptr<metrics_api::Meter>> meters;
+  struct PerMeter
+  {
+    nostd::unique_ptr<metrics_api::Counter<uint64_t>> counter;
+    nostd::unique_ptr<metrics_api::Histogram<double>> histogram;
+    size_t counter_idx = 0, histogram_idx = 0;
+  };
+  std::vector<PerMeter> per;
+  if (sh.get_first)
+    meters.push_back(mp->GetMeter("c18.a", "1.0"));
+  add_due(0);
+  if (!sh.get_first)
+    meters.push_back(mp->GetMeter("c18.a", "1.0"));
+  per.emplace_back();
+  size_t cur = 0;
+  for (unsigned i = 0; i < ops.size(); ++i)
+  {
+    if (i)
+      add_due(i);
+    const MetricOp &op = ops[i];
+    if (op.kind == 3 && meters.size() < 2)
+    {
+      meters.push_back(mp->GetMeter("c18.b"));
+      per.emplace_back();
+      cur = 1;
+    }
+    if (op.kind == 2)
+    {
+      std::vector<unsigned> live;
+      for (unsigned j = 0; j < sh.total; ++j)
+        if (readers[j].attached)
+          live.push_back(j);
+      if (!live.empty())
+        collect(live[op.pick % live.size()]);
+    }
+    else if (op.kind == 1)
+    {
+      PerMeter &pm = per[cur];
+      if (!pm.histogram)
+      {
+        pm.histogram     = meters[cur]->CreateDoubleHistogram("c18.hist");
+        pm.histogram_idx = instruments.size();
+        instruments.push_back(Instrument{++now, 0});
+      }
+      pm.histogram->Record(2.5, opentelemetry::context::Context{});
+      if (instruments[pm.histogram_idx].first_use == 0)
+        instruments[pm.histogram_idx].first_use = ++now;
+    }
+    else
+    {
+      PerMeter &pm = per[cur];
+      if (!pm.counter)
+      {
+        pm.counter     = meters[cur]->CreateUInt64Counter("c18.count");
+        pm.counter_idx = instruments.size();
+        instruments.push_back(Instrument{++now, 0});
+      }
+      pm.counter->Add(3);
+      if (instruments[pm.counter_idx].first_use == 0)
+        instruments[pm.counter_idx].first_use = ++now;
+    }
+  }
+  add_due(static_cast<unsigned>(ops.size()));
+  for (unsigned k = 0; k < final_collects; ++k)
+    for (unsigned j = 0; j < sh.total; ++j)
+      collect(j);
+  check_provider_resource(c, mp->GetResource(), w, "MeterProvider");
+  // the batches were copied inside the callbacks; nothing is read after the provider is gone
+  for (unsigned j = 0; j < sh.total; ++j)
+    for (auto &s : readers[j].batches)
+      check_seen(c, s, w, of_provider, "the metric " + s.name + " (" + std::to_string(s.metrics) + " metric(s))", st);
+  if (sh.end_mode == 1)
+    mp->ForceFlush();
+  else if (sh.end_mode == 2)
+    mp->Shutdown();
+  per.clear();
+  if (!sh.scope_outlives)
+    meters.clear();
+  mp.reset();
+  meters.clear();
+}
+}  // namespace
+
+VH_TARGET(res_reference, 3,
+          "a case builds a tracer, a logger and / or a meter provider through a generated public constructor or "
+          "factory overload with a generated resource and drives them with generated operations; it is non-trivial "
+          "when at least one recordable / batch was checked at an exporter AND the provider's resource can be told "
+          "from the empty and from another provider's resource (it has a generated attribute or schema URL, or it "
+          "is the default-argument resource) AND the shape goes beyond the fixed one of sdk_disabled (another "
+          "overload, >= 2 processors / readers, a processor added later, >= 2 recordables or collections); "
+          "distinct = distinct (resource, shapes, operation lists) text")
+{
+  vh::Reader &rd = c.rd;
+  quiet_sdk_log();
+  clear_env();  // before the first Resource::Create of this process: its environment detection is cached
+  errno = 0;
+
+  ResArg ra;
+  ra.kind   = static_cast<unsigned>(rd.weighted({65, 35}));
+  ra.ga     = gen_attrs(rd, 4, false);
+  ra.schema = gen_schema(rd);
+  unsigned focus = static_cast<unsigned>(rd.weighted({25, 25, 25, 25}));  // 0 traces, 1 logs, 2 metrics, 3 all three
+  bool do_t = focus == 0 || focus == 3, do_l = focus == 1 || focus == 3, do_m = focus == 2 || focus == 3;
+
+  Shape ts, ls, ms;
+  std::vector<TraceOp> tops;
+  std::vector<LogOp> lops;
+  std::vector<MetricOp> mops;
+  int t_rival = -1, l_rival = -1;
+  unsigned final_collects = 1;
+  if (do_t)
+  {
+    unsigned n = 1 + static_cast<unsigned>(rd.below(kMaxOps));
+    for (unsigned i = 0; i < n && (i < 1 || !rd.exhausted()); ++i)
+    {
+      TraceOp op;
+      op.kind  = static_cast<unsigned>(rd.weighted({45, 25, 15, 15}));
+      op.child = rd.coin();
+      tops.push_back(op);
+    }
+    ts = gen_shape(rd, 4, true, false, static_cast<unsigned>(tops.size()));
+    if (rd.chance(20))
+      t_rival = static_cast<int>(rd.below(static_cast<uint32_t>(tops.size()) + 1));
+  }
+  if (do_l)
+  {
+    unsigned n = 1 + static_cast<unsigned>(rd.below(kMaxOps));
+    for (unsigned i = 0; i < n && (i < 1 || !rd.exhausted()); ++i)
+    {
+      LogOp op;
+      op.kind = static_cast<unsigned>(rd.weighted({30, 18, 18, 10, 10, 7, 7}));
+      lops.push_back(op);
+    }
+    ls = gen_shape(rd, 2, true, true, static_cast<unsigned>(lops.size()));
+    if (rd.chance(20))
+      l_rival = static_cast<int>(rd.below(static_cast<uint32_t>(lops.size()) + 1));
+  }
+  if (do_m)
+  {
+    unsigned n = 1 + static_cast<unsigned>(rd.below(kMaxOps));
+    for (unsigned i = 0; i < n && (i < 1 || !rd.exhausted()); ++i)
+    {
+      MetricOp op;
+      op.kind = static_cast<unsigned>(rd.weighted({40, 20, 25, 15}));
+      op.pick = rd.u8();
+      mops.push_back(op);
+    }
+    ms             = gen_shape(rd, 3, false, false, static_cast<unsigned>(mops.size()));
+    final_collects = 1 + static_cast<unsigned>(rd.below(2));
+  }
+
+  // ---- canonical text, tags
+  c.note(std::string("resource: ") + (ra.kind == 0 ? "raw " : "Create ") + show_map(ra.ga.model) + " schema='" + vh::show(ra.schema) + "'\n");
+  auto shape_tags = [&](const char *sig, const Shape &s, unsigned max_arity, bool default_res, size_t nops) {
+    c.tag(std::string(sig) + "/how=" + kFormNames[s.form] + (s.via_context() || s.form == 6 || max_arity == 3 ? "" : s.single ? "(one)" : "(vector)"));
+    c.tag(std::string(sig) + "/args=" + std::to_string(s.arity));
+    c.tag(std::string(sig) + (default_res ? "/resource=default-argument" : ra.kind == 0 ? "/resource=given" : "/resource=given-Create"));
+    c.tag(std::string(sig) + "/n=" + std::to_string(s.total));
+    if (s.initial >= 2)
+      c.tag(std::string(sig) + "/>=2-handed-to-constructor");
+    bool later = false;
+    for (auto at : s.add_at)
+      later = later || at > 0 || s.get_first;
+    if (later)
+      c.tag(std::string(sig) + "/added-after-Get" + (sig[0] == 't' ? "Tracer" : sig[0] == 'l' ? "Logger" : "Meter"));
+    bool hold = false;
+    for (bool h : s.holding)
+      hold = hold || h;
+    if (hold)
+      c.tag(std::string(sig) + (max_arity == 3 ? "/reader-with-filter" : "/holding-processor"));
+    c.tag(std::string(sig) + "/end=" + (s.end_mode == 0 ? "destroy" : s.end_mode == 1 ? "flush" : "shutdown"));
+    if (s.scope_outlives)
+      c.tag(std::string(sig) + "/scope-outlives-provider");
+    (void)nops;
+  };
+  bool beyond = false;
+  auto is_beyond = [&](const Shape &s, unsigned fixed_arity, size_t nops) {
+    return s.form != 0 || !s.single || s.arity != fixed_arity || s.total >= 2 || !s.add_at.empty() || nops >= 2;
+  };
+  if (do_t)
+  {
+    std::string o = "traces: " + show_shape(ts, 4) + " rival_at=" + std::to_string(t_rival) + " ops=";
+    for (auto &op : tops)
+      o += std::string(op.kind == 0 ? "span" : op.kind == 1 ? "start" : op.kind == 2 ? "end" : "tracer2+span") + (op.child ? "(child) " : " ");
+    c.note(o + "\n");
+    shape_tags("traces", ts, 4, ts.arity == 0, tops.size());
+    {
+      unsigned depth = 0;
+      for (auto &op : tops)
+      {
+        c.tag(op.kind == 0 ? "traces/op-span" : op.kind == 1 ? "traces/op-start-keep-open" : op.kind == 2 ? "traces/op-end" : "traces/op-second-tracer");
+        if (op.kind != 2 && op.child && depth > 0)
+          c.tag("traces/child-span");
+        if (op.kind == 1)
+          ++depth;
+        else if (op.kind == 2 && depth > 0)
+          --depth;
+      }
+    }
+    if (t_rival >= 0)
+      c.tag("traces/second-provider");
+    beyond = beyond || is_beyond(ts, 1, tops.size());
+  }
+  if (do_l)
+  {
+    static const char *const kn[] = {"emit(args)", "create", "emit(record)", "Log()", "logger2+emit", "event", "emit(record,args)"};
+    std::string o = "logs: " + show_shape(ls, 2) + " rival_at=" + std::to_string(l_rival) + " ops=";
+    for (auto &op : lops)
+      o += std::string(kn[op.kind]) + " ";
+    c.note(o + "\n");
+    shape_tags("logs", ls, 2, ls.arity == 0, lops.size());
+    for (auto &op : lops)
+      c.tag(std::string("logs/op-") + kn[op.kind]);
+    if (l_rival >= 0)
+      c.tag("logs/second-provider");
+    beyond = beyond || is_beyond(ls, 1, lops.size());
+  }
+  if (do_m)
+  {
+    static const char *const kn[] = {"count", "hist", "collect", "meter2+count"};
+    std::string o = "metrics: " + show_shape(ms, 3) + " final_collects=" + std::to_string(final_collects) + " ops=";
+    for (auto &op : mops)
+      o += std::string(kn[op.kind]) + (op.kind == 2 ? "(" + std::to_string(op.pick) + ") " : " ");
+    c.note(o + "\n");
+    shape_tags("metrics", ms, 3, ms.arity < 2, mops.size());
+    for (auto &op : mops)
+      c.tag(std::string("metrics/op-") + kn[op.kind]);
+    c.tag("metrics/final-collects=" + std::to_string(final_collects));
+    // sdk_disabled: one reader, one Collect, the (views, resource) constructor
+    beyond = beyond || ms.form != 0 || ms.arity != 2 || ms.total >= 2 || final_collects >= 2 || mops.size() >= 2;
+  }
+
+  RefStats st;
+  if (do_t)
+    run_traces(c, ts, tops, t_rival, ra, st);
+  if (do_l)
+    run_logs(c, ls, lops, l_rival, ra, st);
+  if (do_m)
+    run_metrics(c, ms, mops, final_collects, ra, st);
+
+  if (st.same_object)
+    c.tag("ref-same-object");
+  if (st.equal_copy)
+    c.tag("ref-equal-copy");
+  c.tag(st.checked == 0 ? "checked-0" : st.checked <= 3 ? "checked-1..3" : st.checked <= 10 ? "checked-4..10" : "checked-11+");
+  bool any_default = (do_t && ts.arity == 0) || (do_l && ls.arity == 0) || (do_m && ms.arity < 2);
+  bool telling     = any_default || !ra.ga.model.empty() || !ra.schema.empty() || ra.kind == 1;
+  c.nontrivial     = st.checked > 0 && telling && beyond;
 }
